@@ -72,7 +72,7 @@ func (y *Y) Clone() *Y {
 // YOpts are surface-form choices of the YAML printer.
 type YOpts struct {
 	Indent    int  `json:"indent,omitempty"`     // spaces per level (default 2)
-	Flow      int  `json:"flow,omitempty"`       // 0 never; 1 flow style for scalar-only sequences; 2 also for small scalar-only maps
+	Flow      int  `json:"flow,omitempty"`       // 0 never; 1 flow style for scalar-only sequences; 2 also for small scalar-only maps; 3 the whole document on one line
 	Quote     int  `json:"quote,omitempty"`      // 0 plain where safe else double; 1 always double; 2 single where possible
 	Comments  bool `json:"comments,omitempty"`   // sprinkle comments and blank lines
 	SeqIndent bool `json:"seq_indent,omitempty"` // indent "- " under its key
@@ -159,6 +159,11 @@ func (y *Y) Print(o YOpts) string {
 		sb.WriteString("#%Validation Profile 1.0\n")
 	}
 	p := &yprinter{o: o, sb: &sb}
+	if o.Flow >= 3 {
+		// the whole document in flow style on one line (what a JSON-minded tool emits)
+		sb.WriteString(p.flow(y) + "\n")
+		return sb.String()
+	}
 	p.block(y, 0)
 	return sb.String()
 }
